@@ -2,7 +2,7 @@ CONSTANT Mode = "cols"
 CONSTANT MaxSteps = 3
 CONSTANT MaxZero = 2
 CONSTANT RowCounts = {2, 3, 4}
-CONSTANT PadCounts = {4096, 8192, 16384}
+CONSTANT PadCounts = {4097, 16384}
 CONSTANT NGen = 6
 SPECIFICATION Spec
 INVARIANT TypeOK
@@ -10,6 +10,8 @@ INVARIANT Consistent
 INVARIANT GramInvariant
 INVARIANT LawC08
 INVARIANT PadLaw
+INVARIANT WideLaw
+INVARIANT HistLaw
 INVARIANT ClassInvariant
 INVARIANT Export
 CHECK_DEADLOCK FALSE
